@@ -11,7 +11,7 @@ from ..core import AnalysisError, Ctx, norm
 from ..effects import Effects
 
 META = {
-    "explanation": "The helpers branch only on the *shape* of their arguments (key present or not, value kind: scalar / dict / list of dicts and None / the '__delete__' marker / dict carrying __delete__, overwrite flag), so the case table is finite. PAI evaluates dictutils.update on every cell of that table with opaque leaf values and compares the resulting d1 with the documented law; d2 is compared with a structural snapshot taken before the call (U1-U3). find / findall / findunique / findkey are evaluated on lists whose items have the key with an equal value, with a different value, with a value that is a proper substring / superstring of the asked one, with a falsy value, or lack the key: results, order and the items themselves are compared with the law (F1-F4). Effect analysis shows update never stores into d2 or its sub-objects and the find helpers have no mutation site (E1, shared with C12).",
+    "explanation": "The helpers branch only on the *shape* of their arguments (key present or not, value kind: scalar / dict / list of dicts and None / the '__delete__' marker / dict carrying __delete__, overwrite flag), so the case table is finite. PAI evaluates dictutils.update on every cell of that table with opaque leaf values and compares the resulting d1 with the documented law; d2 is compared with a structural snapshot taken before the call (U1-U3). find / findall / findunique / findkey are evaluated on lists whose items have the key with an equal value, with a different value, with a value that is a proper substring / superstring of the asked one, with a falsy value, or lack the key: results, order and the items themselves are compared with the law (F1-F4). Effect analysis shows update never stores into d2 or its sub-objects and the find helpers have no mutation site (E1, shared with C12). U3 runs the three deletion forms in both overwrite modes, at the top level and inside a nested object.",
     "level_text": "Exhaustive over the finite shape table on which the code branches; leaf values are opaque, so each cell holds for all values of its shape. Arbitrary nestings are compositions of these cells through the recursive calls, which are evaluated through the same code.",
     "level_note": "Trusted: itertools.zip_longest, sorted/set on strings. Deep nesting beyond the two levels of the table is covered by the recursion going through the same evaluated cells, not replayed.",
     "technique": "abstract interpretation over the argument-shape case table + effect analysis",
